@@ -26,16 +26,20 @@
                the harness is wrong; says nothing about the implementation)
      clause 0 none (inside the proved domain)   3 value_ndim   4 fancy_in_range   5 fancy_nonempty
             6 fancy_value   7 bool_mask   8 bool_mask read on a 1-d array (True/False are used
-            as the integers 1/0: wrong values, no error)   10 empty_tuple_key *)
+            as the integers 1/0: wrong values, no error)   10 empty_tuple_key
+            11 a NumPy integer scalar that does not fit the dtype (np.asarray wraps, NumPy raises)
+            12 None in an assignment key (judged against the model only)   13 index array in a basic key *)
 From Coq Require Import ZArith List Bool.
-From Verif Require Import Py PyExt G_slicing G_dok PySlice Shape Slicing COO NpAssign DOK Judge.
+From Verif Require Import Py PyExt G_slicing G_dok PySlice Shape Slicing COO NpIndex CooIndex Convert DokGetitem
+     NpAssign DOK DOKExt Judge.
 Import ListNotations.
 Open Scope Z_scope.
 
-Definition arr_of (sh flat : list Z) : arr Z :=
-  mkArr sh (fun ix => nth (Z.to_nat (ravel sh ix)) flat 0).
+Definition arr_of (sh flat : list Z) : arr Z := arr_of_flat sh flat.
 
-Inductive jop := JSet (k : key) (vsh vflat : list Z) | JGet (k : key).
+(* an assignment of a RAW value (cast to the DOK's dtype by __setitem__), a read, or the round trip
+   d = DOK.from_coo(d.asformat("coo")) *)
+Inductive jop := JSet (k : key) (raw : rawval) | JGet (k : key) | JRound.
 (* what the implementation did: completed / raised (class code) / returned a value *)
 Inductive jout := JOk | JExc (e : Z) | JVal (sh flat : list Z).
 
@@ -45,7 +49,7 @@ Definition jstep := (jop * jout * jstate * jout)%type.
 (* final observations: todense (flat) / coo (coords, data) — None if it raised —, nnz, and the
    NumPy shadow array (flat) *)
 Definition jfinal := (option (list Z) * option (list (list Z) * list Z) * Z * list Z)%type.
-Definition hist_case := (list Z * Z * jstate * list jstep * jfinal)%type.
+Definition hist_case := (dtype * list Z * Z * jstate * list jstep * jfinal)%type.
 
 Definition exc_code (e : exc) : Z :=
   match e with
@@ -66,7 +70,11 @@ Definition state_means (sh : list Z) (fill : Z) (st : jstate) (a : idx -> Z) : b
 Definition keys_ok (sh : list Z) (st : jstate) : bool :=
   forallb (in_rangeb sh) (map fst st) && sorted_strict (map fst st).
 
-Definition set_clause (sh : list Z) (k : key) (v : arr Z) : Z :=
+Definition has_newaxis (k : key) : bool :=
+  match k with KIndex ix => negb (index_no_newaxis ix) | _ => false end.
+
+Definition set_clause (dt : dtype) (sh : list Z) (k : key) (raw : rawval) (v : arr Z) : Z :=
+  if negb (npint_fits dt (key_adv k) raw) then 11 else
   match k with
   | KBasic es =>
     if negb (nonempty_key es) then 10
@@ -76,6 +84,11 @@ Definition set_clause (sh : list Z) (k : key) (v : arr Z) : Z :=
     else if negb (fancy_nonempty ls) then 5
     else if negb (fancy_value_clause ls v) then 6 else 0
   | KMask _ => 7
+  | KIndex ix =>
+    if negb (index_nonempty ix) then 10
+    else if negb (index_no_newaxis ix) then 12
+    else if negb (index_no_arrays ix) then 13
+    else if negb (index_value_ndim_clause sh ix v) then 3 else 0
   end.
 
 Definition get_clause (sh : list Z) (k : key) : Z :=
@@ -83,6 +96,36 @@ Definition get_clause (sh : list Z) (k : key) : Z :=
   | KBasic es => if negb (nonempty_key es) then 10 else 0
   | KFancy ls => if negb (fancy_in_range ls sh) then 4 else 0
   | KMask _ => match sh with [_] => 8 | _ => 7 end
+  | KIndex ix => if negb (index_nonempty ix) then 10 else 0
+  end.
+
+(* reads go through the REAL path model (Model/DokGetitem.v: COO.from_iter, the COO indexing
+   kernels with cut-over schedule kf, DOK.from_coo) *)
+Definition index_of_key (sh : list Z) (k : key) : option index :=
+  match k with
+  | KBasic es => Some (map (fun e => match e with KInt i => IInt i | KSlice a b c => ISlice a b c end) es)
+  | KFancy ls => Some (map IArr ls)
+  | KMask m => match sh with [_] => Some [IBArr m] | _ => None end
+  | KIndex ix => Some ix
+  end.
+
+Definition flat_of_dres (r : dres Z) : list Z * list Z :=
+  match r with
+  | DScalar v => ([], [v])
+  | DArr sh items fill => (sh, map (abs fill items) (all_indices sh))
+  end.
+
+(* a zero step is outside the domain of the COO indexing model (and NumPy rejects it): such reads
+   are judged with the meaning-level model of Model/DOK.v, which raises ValueError like range() *)
+Definition index_zero_step (ix : index) : bool := negb (index_no_zero_step ix).
+
+Definition model_read (kf : nat -> nat) (sh : list Z) (fill : Z) (st : jstate) (k : key)
+  : res (list Z * list Z) :=
+  match index_of_key sh k with
+  | Some ix =>
+    if index_zero_step ix then getitem sh fill st k
+    else r <- real_getitem kf sh fill st ix ;; Ok (flat_of_dres r)
+  | None => getitem sh fill st k
   end.
 
 Definition verdict (agree_spec agree_model both_raise : bool) (cl : Z) : Z :=
@@ -90,45 +133,72 @@ Definition verdict (agree_spec agree_model both_raise : bool) (cl : Z) : Z :=
     (if agree_model then 0 else cl * 10 + 1)
   else if agree_model || both_raise then cl * 10 + 2 else cl * 10 + 5.
 
-Definition judge_step (sh : list Z) (fill : Z) (prev : jstate) (s : jstep) : Z :=
+Definition res_pair_eqb (a b : list Z * list Z) : bool := zl_eqb (fst a) (fst b) && zl_eqb (snd a) (snd b).
+
+Definition judge_step (dt : dtype) (sh : list Z) (fill : Z) (prev : jstate) (s : jstep) : Z :=
   let '(op, out, after, _) := s in
   match op with
-  | JSet k vsh vflat =>
-    let v := arr_of vsh vflat in
-    let m := setitem Z.eqb sh fill prev k v in
-    let sp := np_setitem sh (abs fill prev) k v in
-    let cl := set_clause sh k v in
-    let agree_model :=
-      match m, out with
-      | Ok st', JOk => state_eqb st' after
-      | Raise _, JExc _ => state_eqb prev after
-      | _, _ => false
-      end in
-    let both_raise := match m, out with Raise _, JExc _ => true | _, _ => false end in
-    let agree_spec :=
-      match sp with
-      | Some a' => match out with JOk => state_means sh fill after a' | _ => false end
-      | None => true      (* NumPy rejects the assignment: outside the property *)
-      end in
-    verdict agree_spec agree_model both_raise cl
+  | JSet k raw =>
+    match dok_cast dt raw, np_cast dt (key_adv k) raw with
+    | Some mc, Some sc =>
+      (* the model: np.asarray(value, dtype) first, then the key *)
+      let m := match mc with
+               | Ok (vsh, vflat) => setitem Z.eqb sh fill prev k (arr_of vsh vflat)
+               | Raise e => Raise e
+               end in
+      (* the Spec: NumPy's conversion, then NumPy's assignment; None = NumPy raises *)
+      let sp := match sc with
+                | Ok (vsh, vflat) => np_setitem sh (abs fill prev) k (arr_of vsh vflat)
+                | Raise _ => None
+                end in
+      let v := match sc with Ok (vsh, vflat) => arr_of vsh vflat | Raise _ => arr_of [] [0] end in
+      let cl := set_clause dt sh k raw v in
+      let agree_model :=
+        match m, out with
+        | Ok st', JOk => state_eqb st' after
+        | Raise _, JExc _ => state_eqb prev after
+        | _, _ => false
+        end in
+      let both_raise := match m, out with Raise _, JExc _ => true | _, _ => false end in
+      let agree_spec :=
+        if has_newaxis k then true     (* the property's assignment keys are newaxis-free *)
+        else match sp with
+             | Some a' => match out with JOk => state_means sh fill after a' | _ => false end
+             | None => true            (* NumPy rejects the assignment: outside the property *)
+             end in
+      verdict agree_spec agree_model both_raise cl
+    | _, _ => 0                        (* a float whose truncation does not fit: not described *)
+    end
   | JGet k =>
-    let m := getitem sh fill prev k in
+    let m1 := model_read (fun _ => 0%nat) sh fill prev k in
+    let m2 := model_read (fun _ => 7%nat) sh fill prev k in
     let sp := np_getitem sh (abs fill prev) k in
     let cl := get_clause sh k in
     if negb (state_eqb prev after) then cl * 10 + 4 else
-    let agree_model :=
+    let agree1 (m : res (list Z * list Z)) :=
       match m, out with
-      | Ok (rs, rf), JVal s f => zl_eqb rs s && zl_eqb rf f
+      | Ok r, JVal s f => res_pair_eqb r (s, f)
       | Raise _, JExc _ => true
       | _, _ => false
       end in
-    let both_raise := match m, out with Raise _, JExc _ => true | _, _ => false end in
+    let agree_model := agree1 m1 && agree1 m2 in
+    let both_raise := match m1, out with Raise _, JExc _ => true | _, _ => false end in
     let agree_spec :=
       match sp with
-      | Some (rs, rf) => match out with JVal s f => zl_eqb rs s && zl_eqb rf f | _ => false end
+      | Some r => match out with JVal s f => res_pair_eqb r (s, f) | _ => false end
       | None => true
       end in
     verdict agree_spec agree_model both_raise cl
+  | JRound =>
+    (* asformat("coo") then DOK.from_coo: the dict must come back as the model says (the same
+       dict for a well-formed one) and mean the same array *)
+    let m := roundtrip sh fill prev in
+    let agree_model := match out with JOk => state_eqb m after | _ => state_eqb prev after end in
+    let agree_spec :=
+      if keys_ok sh prev
+      then match out with JOk => state_means sh fill after (abs fill prev) | _ => false end
+      else true in
+    verdict agree_spec agree_model false 0
   end.
 
 Definition judge_final (sh : list Z) (fill : Z) (st : jstate) (f : jfinal) : Z :=
@@ -156,15 +226,19 @@ Definition judge_final (sh : list Z) (fill : Z) (st : jstate) (f : jfinal) : Z :
 Definition materialise (sh : list Z) (a : idx -> Z) : idx -> Z :=
   let l := np_flat sh a in fun ix => nth (Z.to_nat (ravel sh ix)) l 0.
 
-Definition spec_step (sh : list Z) (a : idx -> Z) (s : jstep) : bool * (idx -> Z) :=
+Definition spec_step (dt : dtype) (sh : list Z) (a : idx -> Z) (s : jstep) : bool * (idx -> Z) :=
   let '(op, _, _, npout) := s in
   match op with
-  | JSet k vsh vflat =>
-    match np_setitem sh a k (arr_of vsh vflat), npout with
-    | Some a', JOk => (true, materialise sh a')
-    | None, JExc _ => (true, a)
-    | Some a', _ => (false, a)
-    | None, _ => (false, a)
+  | JSet k raw =>
+    match np_cast dt (key_adv k) raw with
+    | Some (Ok (vsh, vflat)) =>
+      match np_setitem sh a k (arr_of vsh vflat), npout with
+      | Some a', JOk => (true, materialise sh a')
+      | None, JExc _ => (true, a)
+      | _, _ => (false, a)
+      end
+    | Some (Raise _) => (match npout with JExc _ => true | _ => false end, a)   (* NumPy may report an invalid key first *)
+    | None => (true, a)
     end
   | JGet k =>
     match np_getitem sh a k, npout with
@@ -172,15 +246,16 @@ Definition spec_step (sh : list Z) (a : idx -> Z) (s : jstep) : bool * (idx -> Z
     | None, JExc _ => (true, a)
     | _, _ => (false, a)
     end
+  | JRound => (true, a)
   end.
 
 Definition judge_spec (c : hist_case) : Z :=
-  let '(sh, fill, _, steps, fin) := c in
+  let '(dt, sh, fill, _, steps, fin) := c in
   let '(_, _, _, npflat) := fin in
   let fix go (i : Z) (a : idx -> Z) (l : list jstep) : Z :=
     match l with
     | [] => if zl_eqb (np_flat sh a) npflat then 0 else i * 1000 + 7
-    | s :: r => let '(ok, a') := spec_step sh a s in if ok then go (i + 1) a' r else i * 1000 + 7
+    | s :: r => let '(ok, a') := spec_step dt sh a s in if ok then go (i + 1) a' r else i * 1000 + 7
     end in
   go 1 (materialise sh (np_full fill)) steps.
 
@@ -188,12 +263,12 @@ Definition judge_spec (c : hist_case) : Z :=
    judged independently (each from the implementation's own previous dict), so judging goes on
    after a failing step. *)
 Definition hist_codes (c : hist_case) : list Z :=
-  let '(sh, fill, s0, steps, fin) := c in
+  let '(dt, sh, fill, s0, steps, fin) := c in
   let fix go (i : Z) (prev : jstate) (l : list jstep) : list Z :=
     match l with
     | [] => let v := judge_final sh fill prev fin in if v =? 0 then [] else [i * 1000 + v]
     | s :: r =>
-      let v := judge_step sh fill prev s in
+      let v := judge_step dt sh fill prev s in
       let rest := go (i + 1) (snd (fst s)) r in
       if v =? 0 then rest else (i * 1000 + v) :: rest
     end in
@@ -210,7 +285,7 @@ Definition untagged (code : Z) : bool :=
 Definition judge_hist (c : hist_case) : Z :=
   let vs := judge_spec c in
   if negb (vs =? 0) then vs else
-  let '(sh, fill, s0, steps, fin) := c in
+  let '(dt, sh, fill, s0, steps, fin) := c in
   if negb (state_eqb s0 []) then 1000 + 6 else
   let codes := hist_codes c in
   match filter untagged codes with
